@@ -225,12 +225,18 @@ def _klass(entry, kind):
 
 # ------------------------------------------------------------------------------------------
 def cases(tier, seed):
-    inv = _inventory()
-    rng = random.Random(f"{seed}/C15/cases")
-    thorough = tier == "thorough"
-    pairs = [(n, u) for n in range(1, 5) for u in range(n)]
+    """Directed witnesses first, then the sweep.  ``VERIF_C15_STRIDE=N`` (used only when validating the monitors with
+    canary mutants on a loaded machine) keeps every N-th sweep case; the default 1 is the frozen budget."""
+    stride = max(1, int(os.environ.get("VERIF_C15_STRIDE") or 1))
+    yield from _directed()
+    for k, c in enumerate(_sweep(tier, seed)):
+        if k % stride == 0:
+            yield c
 
-    # directed witnesses of the section-3 defects and of the two found while building this check
+
+def _directed():
+    inv = _inventory()
+    # directed witnesses of the section-3 defects and of those found while building this check
     first = {}
     for e in inv:
         k = ("ele2" if e["ele_ver"] == 2 else "ele") if e["ele"] else "classic"
@@ -244,24 +250,36 @@ def cases(tier, seed):
         e = first["ele2"]
         yield {"kind": "dc", "family": e["family"], "rev": e["rev"], "key": "p256", "n": 4, "used": 0, "w": "v2-socc"}
         yield {"kind": "dc", "family": e["family"], "rev": e["rev"], "key": "p384", "n": 4, "used": 1, "w": "v2-uuid-leading-zeros"}
+    if "ele" in first:
+        e = first["ele"]
+        yield {"kind": "dc", "family": e["family"], "rev": e["rev"], "key": "rsa2048", "n": 4, "used": 3, "w": "sign-provider-pss"}
     v2_fams = {e["family"] for e in inv if e["ele_ver"] == 2 and e["latest"]}
     for e in inv:
         if e["ele"] and e["ele_ver"] == 1 and e["family"] in v2_fams:
             yield {"kind": "dc", "family": e["family"], "rev": e["rev"], "key": "p384", "n": 4, "used": 2, "w": "v1-on-v2-family"}
             break
 
+
+def _sweep(tier, seed):
+    inv = _inventory()
+    rng = random.Random(f"{seed}/C15/cases")
+    thorough = tier == "thorough"
+    pairs = [(n, u) for n in range(1, 5) for u in range(n)]
     reps = 2 if thorough else 1
     for rep in range(reps):
-        for e in inv:
+        for idx, e in enumerate(inv):
             for key in KINDS:
+                # RSA-4096 differs from RSA-2048 only in its sizes and costs 0.3 s per private-key load: sampled
+                if key == "rsa4096" and not e["ele"] and ((idx + seed) % (2 if thorough else 3) or rep):
+                    continue
                 base = {"kind": "dc", "family": e["family"], "rev": e["rev"], "key": key}
                 if e["ele"]:
-                    useds = range(4) if thorough else [rng.randrange(4)]
+                    useds = range(4) if thorough and key != "rsa4096" else [rng.randrange(4)]
                     for u in useds:
                         yield dict(base, n=4, used=u, rep=rep)
                     if e["ele_ver"] == 2 and not thorough:
                         yield dict(base, n=4, used=rng.randrange(4), rep=rep + 1)
-                    if e["ele_ver"] == 2 and thorough:
+                    if e["ele_ver"] == 2 and thorough and key != "rsa4096":
                         for u in range(4):
                             yield dict(base, n=4, used=u, rep=rep + 2)
                 else:
@@ -273,9 +291,9 @@ def cases(tier, seed):
         if e["ele"] and e["ele_ver"] == 1 and e["latest"]:
             yield {"kind": "dc", "family": e["family"], "rev": e["rev"], "key": "p256", "n": 1 + rng.randrange(3), "used": 0, "refusal": 1}
     # extra random draws over everything (different value classes, legacy configuration)
-    for k in range(400 if thorough else 40):
+    for k in range(600 if thorough else 60):
         e = inv[rng.randrange(len(inv))]
-        key = KINDS[rng.randrange(len(KINDS))]
+        key = core.pick(rng, ["rsa2048", "rsa2048", "p256", "p256", "p384", "p384", "p521", "p521", "rsa4096"])
         n, u = (4, rng.randrange(4)) if e["ele"] else pairs[rng.randrange(len(pairs))]
         yield {"kind": "dc", "family": e["family"], "rev": e["rev"], "key": key, "n": n, "used": u, "x": k}
 
@@ -309,7 +327,8 @@ def _uuid(rng, v2=False, force=None):
         return core.rand_bytes(rng, 12) + bytes(4)  # trailing zeros
     if r < 0.94:
         return b"\x00" + core.rand_bytes(rng, 14) + b"\x01"  # one leading zero byte
-    return bytes(4 if not v2 or rng.random() < 0.5 else 2) + core.rand_bytes(rng, 11 if not v2 else 13)[:11] + b"\x01"
+    z = 4 if (not v2 or rng.random() < 0.5) else 2  # several leading zero bytes (number-like UUIDs)
+    return bytes(z) + core.rand_bytes(rng, 15 - z) + b"\x01"
 
 
 def _key_source(rng, name, allow_cert=True):
@@ -356,8 +375,9 @@ def _sig(case, klass):
 def _classify_parse(case, entry, klass, version, exc):
     if klass == "ecc" and case["key"] == "p521" and case["n"] > 1 and isinstance(exc, struct.error):
         return K_P521_TABLE
-    if klass == "ele" and _socc_groups()[entry["socc"]]["latest_v2"] and tuple(version) != (2, 0):
-        return K_PARSE_REV
+    if (klass == "ele" and _socc_groups()[entry["socc"]]["latest_v2"] and tuple(version) != (2, 0)
+            and "AhabCertificate" in str(exc)):
+        return K_PARSE_REV  # classic credential of an older revision handed to the AHAB-certificate parser
     return f"dc-parse-raises:{type(exc).__name__}"
 
 
@@ -401,7 +421,7 @@ def _run_classic(case, entry, klass, ctx):  # noqa: C901
         "rot_meta": [p for p, _c in sources], "rot_id": core.pick(rng, [used, used, str(used)]),
         "dck": _key_source(rng, dck_name)[0],
     }
-    if rng.random() < 0.7:
+    if rng.random() < 0.7 and case.get("w") != "sign-provider-pss":
         cfg["rotk"] = pki.path(names[used], "priv", core.pick(rng, ["pem", "der"]))
     else:
         cfg["sign_provider"] = "type=file;file_path=" + pki.path(names[used], "priv", "pem")
@@ -977,3 +997,30 @@ def _run_v2(case, entry, ctx):  # noqa: C901
     ctx.count("msign_dar")
     ctx.ok(sig, sample={"family": family, "revision": rev, "class": "ele2", "srk_keys": names, "used": used, "dck": dck_name,
                         "uuid": uuid, "cc_socu": cc_socu, "dc_len": len(data), "dar_len": len(out), "signature_verified": sig_ok})
+
+
+# ------------------------------------------------------------------------------------------
+def extra_coverage(events, counters):
+    """Measured coverage keys for the evidence file (parent process)."""
+    fams, pairs, classes, keys, sets = set(), set(), {}, {}, set()
+    for ev in events:
+        if ev.get("t") == "ok" and "sig" in ev:
+            try:
+                tag, klass, fam, rev, key, n, used = json.loads(ev["sig"])
+            except (ValueError, TypeError):
+                continue
+            if tag != "dc":
+                continue
+            fams.add(fam)
+            pairs.add((fam, rev))
+            classes[klass] = classes.get(klass, 0) + 1
+            keys[key] = keys.get(key, 0) + 1
+            sets.add((klass, n, used))
+    return {
+        "families_judged": len(fams), "family_revisions_judged": len(pairs), "judged_by_class": classes, "judged_by_key_type": keys,
+        "distinct_class_setsize_usedindex": len(sets),
+        "accepted": {"credentials": counters.get("dc_created", 0), "responses": counters.get("dar_built", 0),
+                     "responses_edgelock_v2": counters.get("dar_v2_built", 0)},
+        "hooks_reached": {"M-SIGN credential": counters.get("msign_dc", 0), "M-SIGN response": counters.get("msign_dar", 0)},
+    }
+
